@@ -50,7 +50,13 @@ def scenario(ctx, script_key, stop_api, with_next, max_preempt, later=False):
         TClock = simsched.traced(clock_mod.Clock, ['_keep_going'])
 
         def bind_clock(net):
-            injection.bind(TClock).to(i_lib.Clock)
+            # the production binding (clock.configure(), as light_module does), applied to the traced class
+            real_class = clock_mod.Clock
+            clock_mod.Clock = TClock
+            try:
+                clock_mod.configure()
+            finally:
+                clock_mod.Clock = real_class
         simsched.Sched.cur_sched = None
         net = world.configure((('A', 'G1', 'L1', 'plain'), ('B', 'G1', 'L1', 'plain'), ('C', 'G2', 'L1', 'plain')),
                               clock=bind_clock, extra_settings={'sleep_time': TICK})
@@ -66,7 +72,7 @@ def scenario(ctx, script_key, stop_api, with_next, max_preempt, later=False):
         job = ScriptJob.from_string(SCRIPTS[script_key])
         aim_next = stop_api == 'stop_next'
         nxt = ScriptJob.from_string(NEXT_FOREVER if aim_next else NEXT_JOB) if with_next else None
-        lat = ScriptJob.from_string(LATER_JOB) if later else None
+        lat = ScriptJob.from_string(LATER_JOB) if later and later != 'same' else None
         assert job.program is not None
         marks = {}
         stamps = []
@@ -88,6 +94,11 @@ def scenario(ctx, script_key, stop_api, with_next, max_preempt, later=False):
         def requester():
             if stop_api in ('stop_background', 'stop_all_bg'):
                 jc.spawn_job(job, 'main')
+            elif stop_api == 'stop_other':
+                # two scripts alive at once: a background script, which gets stopped, next to the queued script under test
+                jc.spawn_job(ScriptJob.from_string(NEXT_FOREVER), 'other')
+                marks['main_queued_at'] = s.now
+                jc.add_job(job, 'main')
             elif stop_api in ('web_stop_script', 'web_stop_script_bg'):
                 # started and stopped the way the web server does it: the job is named after the manifest path
                 sc = web_app_mod.ScriptControl('main.ls', run_background=stop_api.endswith('_bg'), path=WEB_PATH)
@@ -103,7 +114,11 @@ def scenario(ctx, script_key, stop_api, with_next, max_preempt, later=False):
             if nxt is not None:
                 jc.add_job(nxt, 'next')
             # the stop may land anywhere from here on: the scheduler decides how far the job got
-            if stop_api != 'stop_all_handover':            # (that one waits for the job in front by itself)
+            if stop_api == 'stop_other':
+                # the stop comes while both scripts are under way
+                for _ in range(1 + ctx.choose(2, 'let-it-run')):
+                    simsched.ShimTime.sleep(TICK)
+            elif stop_api != 'stop_all_handover':            # (that one waits for the job in front by itself)
                 for _ in range(ctx.choose(3, 'let-it-run')):
                     simsched.ShimTime.sleep(TICK)
             marks['before'] = len(net.trace)
@@ -136,7 +151,7 @@ def scenario(ctx, script_key, stop_api, with_next, max_preempt, later=False):
                     problems.append('the web server\'s stop for path %r found no job although the script it had started was running' % WEB_PATH)
             elif stop_api == 'stop_current':
                 marks['result'] = jc.stop_current()
-            elif stop_api == 'stop_background':
+            elif stop_api in ('stop_background', 'stop_other'):
                 marks['result'] = jc.stop_background()
             elif stop_api in ('stop_all', 'stop_all_bg'):       # the web server's stop-all, on this controller
                 marks['result'] = web_app.stop_all()
@@ -159,7 +174,16 @@ def scenario(ctx, script_key, stop_api, with_next, max_preempt, later=False):
                 marks['result'] = web_app.stop_all()
             marks['returned'] = len(net.trace)
             marks['t_stop'] = s.now
-            if lat is not None:
+            if later == 'same':
+                # the same job object queued again after its stopped run
+                for _ in range(40):
+                    if not jc.is_running('main'):
+                        break
+                    simsched.ShimTime.sleep(TICK)
+                marks['later_queued_at'] = s.now
+                marks['trace_at_requeue'] = len(net.trace)
+                jc.add_job(job, 'main')
+            elif lat is not None:
                 # a run started after the stop must be unaffected
                 simsched.ShimTime.sleep(TICK)
                 marks['later_queued_at'] = s.now
@@ -177,7 +201,10 @@ def scenario(ctx, script_key, stop_api, with_next, max_preempt, later=False):
         for t in s.threads:
             if t.exc is not None:
                 problems.append('%s: exception escapes: %s: %s' % (t.name, type(t.exc).__name__, t.exc))
-        main_cmds_after = [e for e in net.trace[marks.get('returned', len(net.trace)):] if e[0] == 'power' and e[1] in ('A', 'B')]
+        main_cmds_after = [e for e in net.trace[marks.get('returned', len(net.trace)):marks.get('trace_at_requeue')] if e[0] == 'power' and e[1] in ('A', 'B')]
+        if stop_api == 'stop_other':
+            # the stopped script is the background one (commands to C)
+            main_cmds_after = [e for e in net.trace[marks.get('returned', len(net.trace)):] if e[0] == 'power' and e[1] == 'C']
         if aim_next:
             main_cmds_after = [e for e in net.trace[marks.get('returned', len(net.trace)):] if e[0] == 'power' and e[1] == 'C'] \
                 if marks.get('result') else []
@@ -206,7 +233,24 @@ def scenario(ctx, script_key, stop_api, with_next, max_preempt, later=False):
                     problems.append('stop-all: a queued job started, or went on sending commands, after stop-all returned (%d commands)' % len(started_after))
                 if jc.get_queued():
                     problems.append('stop-all left jobs in the queue')
-            if later:
+            if stop_api == 'stop_other':
+                # the stop was aimed at the other script: this one sends all its commands, each after its delay
+                mine = [(e, t) for e, t in stamps if e[0] == 'power' and e[1] in ('A', 'B')]
+                n_all = {'straight': 4, 'timed': 3}[script_key]
+                if len(mine) != n_all:
+                    problems.append('a stop aimed at another script: this script sent %d of its %d commands' % (len(mine), n_all))
+                elif script_key == 'timed':
+                    for k, (e, t) in enumerate(mine):
+                        if t < marks['main_queued_at'] + (k + 1) * 1.0 - 1e-9:
+                            problems.append('a stop aimed at another script: command #%d of this script went out %.2f s after it was queued, its delays add up to %d s'
+                                            % (k + 1, t - marks['main_queued_at'], k + 1))
+                            break
+            if later == 'same':
+                again = [e for e in net.trace[marks.get('trace_at_requeue', 0):] if e[0] == 'power' and e[1] in ('A', 'B')]
+                n_all = {'straight': 4, 'timed': 3}[script_key]
+                if len(again) != n_all:
+                    problems.append('the same job queued again after its stopped run sent %d of its %d commands' % (len(again), n_all))
+            elif later:
                 lc = [(e, t) for e, t in stamps if e[0] == 'power' and e[1] == 'C']
                 if len(lc) != 2:
                     problems.append('a job started after the stop sent %d of its 2 commands' % len(lc))
@@ -289,6 +333,11 @@ def run(tier, seed):
             for api in ('web_stop_script', 'web_stop_script_bg'):
                 items.append({'script': script, 'api': api, 'next': False, 'later': False, 'preempt': 1 if q else 2,
                               'max_paths': 1200 if q else 100000, 'budget_s': 12 if q else 400})
+        if script in ('straight', 'timed'):
+            items.append({'script': script, 'api': 'stop_other', 'next': False, 'later': False, 'preempt': 1 if q else 2,
+                          'max_paths': 1200 if q else 100000, 'budget_s': 14 if q else 400})
+            items.append({'script': script, 'api': 'stop_job', 'next': False, 'later': 'same', 'preempt': 1 if q else 2,
+                          'max_paths': 1200 if q else 100000, 'budget_s': 14 if q else 400})
         items.append({'script': script, 'api': 'stop_job', 'next': False, 'later': True, 'preempt': 1 if q else 2,
                       'max_paths': 1500 if q else 150000, 'budget_s': 15 if q else 600})
     results, skipped = report.run_pool(worker, items, budget_s=common.tier_budget(tier, 80, 1000))
